@@ -124,7 +124,7 @@ def match_known(pid, finding, known):
     return None
 
 
-def run_workers(pid, tier, seed, cases_file=None, workers=None, budget=None):
+def run_workers(pid, tier, seed, cases_file=None, workers=None, budget=None, hashseed=None):
     cfg = TIERS[tier]
     workers = workers or cfg["workers"]
     budget = budget or cfg["budget"]
@@ -134,7 +134,7 @@ def run_workers(pid, tier, seed, cases_file=None, workers=None, budget=None):
     tmp = tempfile.mkdtemp(prefix="verif_%s_" % pid, dir=os.path.join(VERIF, ".work"))
     for w in range(workers):
         env = dict(os.environ)
-        env["PYTHONHASHSEED"] = str((seed * 7919 + w * 104729 + 1) % 4294967295)
+        env["PYTHONHASHSEED"] = str((seed * 7919 + w * 104729 + 1) % 4294967295) if hashseed is None else str(hashseed)
         env["PYTHONPATH"] = VERIF + os.pathsep + "/repo"
         out = os.path.join(tmp, "w%d.json" % w)
         cmd = [PY, "-m", "harness.worker", "--prop", pid, "--seed", str(seed), "--wid", str(w),
@@ -211,7 +211,7 @@ def main():
     if corpus_cases:
         cf = os.path.join(VERIF, ".work", "cases_%s_%d.json" % (pid, os.getpid()))
         json.dump(corpus_cases, open(cf, "w"))
-        r, i = run_workers(pid, tier, seed, cases_file=cf)
+        r, i = run_workers(pid, tier, seed, cases_file=cf, hashseed=(rp.get("hashseed") if args.replay else None))
         os.remove(cf)
         results += r
         infra += i
@@ -238,6 +238,8 @@ def main():
         exhaustive = exhaustive and r.get("exhaustive_done", False)
         for k, v in r["tags"].items():
             tags[k] = tags.get(k, 0) + v
+        for f_ in r["findings"]:
+            f_["hashseed"] = r["hashseed"]
         findings += r["findings"]
         if not os.path.realpath(r["pyformlang"]).startswith("/repo"):
             infra.append("pyformlang imported from %s, not /repo" % r["pyformlang"])
@@ -278,7 +280,7 @@ def main():
             json.dumps(f, sort_keys=True, default=str).encode()).hexdigest()[:10]))
         json.dump({"property": pid, "kind": "violation", "op": f["op"], "what": f["what"],
                    "detail": f["detail"], "case": f["case"], "model_agrees": f["model_agrees"],
-                   "scope": f["scope"]}, open(os.path.join(VERIF, path), "w"), indent=1, default=str)
+                   "scope": f["scope"], "hashseed": f.get("hashseed")}, open(os.path.join(VERIF, path), "w"), indent=1, default=str)
         lines.append("VIOLATION property=%s replay=%s" % (pid, path))
         exit_code = 1
         if nrep >= 5:
@@ -289,7 +291,7 @@ def main():
         path = os.path.join("replays", "%s_corr_%s.json" % (pid, hashlib.sha1(
             json.dumps(f, sort_keys=True, default=str).encode()).hexdigest()[:10]))
         json.dump({"property": pid, "kind": "correspondence", "op": f["op"], "what": f["what"],
-                   "detail": f["detail"], "case": f["case"],
+                   "detail": f["detail"], "case": f["case"], "hashseed": f.get("hashseed"),
                    "no_longer_tied": {"correspondence_op": f["op"], "theorems": mod.THEOREMS},
                    "n_breaks": len(corr_breaks)}, open(os.path.join(VERIF, path), "w"), indent=1, default=str)
         lines.append("VIOLATION property=%s replay=%s no-failing-input-found" % (pid, path))
